@@ -269,7 +269,8 @@ class Case:
 
 
 def run_cases(cases, procs=None):
-    jobs = [(([("t.mac", c.src)],), {}) for c in cases]
+    # a case may carry several linked files and include files (`files`, `fs`); otherwise it is the one file `src`
+    jobs = [((getattr(c, "files", None) or [("t.mac", c.src)],), {"fs": getattr(c, "fs", None)}) for c in cases]
     outs = impl.pmap("assemble", jobs, procs=procs, chunksize=64)
     for c, o in zip(cases, outs):
         if o.get("outcome") == "harness-error":
